@@ -157,7 +157,10 @@ def machine_rule(rep, prog, cfg):
         ib = inlined(prog, b, lambda cb: base(cb) and norm(cb.name) not in machine)
         if ib.raw.get("inlined"):
             rep.sample({"C03.machine inlined into " + m: sorted(set(ib.raw["inlined"]))})
-        bodies[m] = ib
+        # a `match` that yields a tuple (`let (finished, frames) = match state { .. => (current, completed_frames) }`) is taken
+        # apart into its components, so that the provenance of each stays separate
+        from ..inline import scalarize_tuples
+        bodies[m] = scalarize_tuples(prog, ib)
     for m, b in bodies.items():
         cells, sw = variant_cells(b, STATE)
         if cells is None:
@@ -246,7 +249,11 @@ def machine_rule(rep, prog, cfg):
                     if v == "Initial" and ff:
                         problems.append("completed frames must be [empty frame], derive from %s" % sorted(ff))
                     if v == "InProgress" and ff != {"current"}:
-                        problems.append("completed frames must be [current], derive from %s" % sorted(ff))
+                        # or: a fresh vector into which `current` is pushed (`(current, Vec::new())` .. `frames.push(finished)`)
+                        pushed_cur = not ff and any(field_origins(b, op_local(t["args"][1]), vis)[0] == {"current"} and
+                                                    not field_origins(b, op_local(t["args"][0]), vis)[0] for bb, t in pushes)
+                        if not pushed_cur:
+                            problems.append("completed frames must be [current], derive from %s" % sorted(ff))
                     if v == "ListInProgress":
                         pushed = False
                         for bb, t in pushes:
